@@ -493,6 +493,8 @@ class Date:
         """Returns a new date that is num_days after the Date. I also make
         it possible to go backwards a number of days."""
 
+        global g_end_year
+
         idx = date_index(self.d, self.m, self.y)
 
         step = +1
@@ -501,6 +503,10 @@ class Date:
 
         while num_days != 0:
             idx += step
+            if idx >= len(g_dt_counter_list):
+                # stepped past the end of the date table: extend it
+                g_end_year += 1
+                calculate_list()
             if g_dt_counter_list[idx] > 0:
                 num_days -= step
 
